@@ -2233,6 +2233,9 @@ impl<'store> AnnotationStore {
                     for annotation in remove_annotations {
                         self.remove(annotation)?;
                     }
+                    for dataset in remove_datasets {
+                        self.remove(dataset)?;
+                    }
                     for (set, key) in remove_keys {
                         self.remove_key(set, key, true)?;
                     }
